@@ -36,6 +36,13 @@ struct State {
 };
 State* S;
 
+/// a value type whose moved-from state differs from its default-constructed state
+struct Rec {
+    std::string tag{"default-constructed"};
+    long v{0};
+};
+inline long to_long(const Rec& r) { return r.tag == "default-constructed" ? r.v : -777000 - (long)r.tag.size(); }
+inline void from_long(long v, Rec& out) { out.v = v; }
 inline long to_long(int v) { return v; }
 inline long to_long(const std::string& s) { return s.empty() ? 0 : std::stol(s.substr(1)); }
 inline void from_long(long v, int& out) { out = (int)v; }
@@ -357,8 +364,11 @@ void run()
 {
     gsim::check_races(gsim::param_int("races", 0) != 0);
     gsim::enable_fault(gsim::F_STALE_READ, gsim::knob("stale", 0, 1) * 200);
-    if (gsim::knob("xtype", 0, 1) == 0) WL<int>().run();
-    else WL<std::string>().run();
+    switch (gsim::knob("xtype", 0, 2)) {
+        case 0: WL<int>().run(); break;
+        case 1: WL<std::string>().run(); break;
+        default: WL<Rec>().run(); break;
+    }
 }
 }  // namespace
 
